@@ -1745,12 +1745,14 @@ fn print_status(router: &mut Router, metrics: Print) {
 
             let metrics = match metrics {
                 Some(v) => Some(v),
-                None => router.graveyard.retrieve(&id).map(|v| {
+                // only look: `retrieve` would take the session away from the client
+                None => router.graveyard.get(&id).map(|v| {
                     (
-                        v.metrics,
+                        v.metrics.clone(),
                         v.session_state
-                            .map(|s| s.tracker)
-                            .unwrap_or(Tracker::new(id)),
+                            .as_ref()
+                            .map(|s| s.tracker.clone())
+                            .unwrap_or(Tracker::new(id.clone())),
                     )
                 }),
             };
